@@ -362,6 +362,13 @@ def run_rot(ctx, u):
                             ctx.check(oo.shape == content.shape and np.array_equal(oo, ref_rot(content, c)), "array2d.original_orientation", shape=(H, W),
                                       corner=c, how="masked_native:" + mk, mask=mm, expected=lambda: ref_rot(content, c), got=oo)
                             ctx.classes["original_orientation_of_masked_array"] += 1
+                        # the same array stored natively WITH its values under the mask (skip_mask=True, the representation kept for
+                        # full-frame detector data): rotating it rotates every stored value
+                        Ak = aa.Array2D(values=exp.copy(), mask=aa.Mask2D(mask=mm.copy(), pixel_scales=ps), header=hdr, store_native=True, skip_mask=True)
+                        ok4, ok_ = ctx.guarded("array2d.original_orientation", lambda: np.asarray(native_of(Ak.original_orientation)))
+                        if ok4:
+                            ctx.check(ok_.shape == exp.shape and np.array_equal(ok_, ref_rot(exp, c)), "array2d.original_orientation", shape=(H, W),
+                                      corner=c, how="native_with_values_under_the_mask:" + mk, mask=mm, expected=lambda: ref_rot(exp, c), got=ok_)
                 # observation only: slim-stored arrays
                 ctx.note("observation (not checked): a slim-stored Array2D hands its 1-D buffer to the rotation - "
                          "original_orientation raises IndexError for corners (0,0),(0,1),(1,1) and returns the 1-D buffer for (1,0)")
